@@ -28,6 +28,7 @@ PathSelections == { <<{}, {}>>, <<{"acme/v1"}, {}>>, <<{"acme/v1/a.proto"}, {}>>
                     <<{"acme/v1"}, {"acme/v1/sub"}>>, <<{"acme/v1", "acme/v2"}, {"acme/v1/sub"}>>, <<{"acme/v2"}, {"acme/v1"}>>,
                     \* a path and a path inside it
                     <<{"acme/v1", "acme/v1/sub"}, {}>> }
+\* (the workspace also has acme/v1beta1/d.proto, which none of these selects: "acme/v1" is a path, not a string prefix)
 \* never a --path inside an --exclude-path
 IsPrefix(a, b) == a = b \/ (a = "acme/v1" /\ b \in {"acme/v1/a.proto", "acme/v1/sub"})
 ValidSelection(ps) == \A p \in ps[1] : \A x \in ps[2] : ~IsPrefix(x, p)
